@@ -14,6 +14,7 @@ every task id and from-node index; nothing is bounded.
 -/
 import Kap.Proofs.C02Bounded
 import Kap.Proofs.C02Opts
+import Kap.Proofs.C02Http
 import Kap.Gen.C02Cap
 namespace Kap.Props.C02
 open Kap.C02
@@ -310,6 +311,36 @@ theorem in_place_from_would_alter_siblings :
       ([some ⟨1700000000000000000, false, ["host"]⟩, some ⟨1700000000300000000, false, []⟩], p.msg) := by
   decide
 
+/-! ### HTTP ingestion (`serveWrite` + `serveWriteLine`) -/
+
+/-- **A request is written whole or not at all.** Whatever the body encoding (plain, gzip, broken gzip), precision (also `m`, `h`,
+unknown ones), lines (malformed, comments, time stamps that leave the int64 range under the precision), `db` / `rp` parameters and
+whether the TaskMaster still accepts writes: either the answer is 204 and ONE `WritePoints` call is made, to `db` and the `rp`
+parameter as given ("" when absent: the default retention policy is substituted by `WritePoints`), with every point line of the body
+in body order, each stamped `time stamp × precision`; or the answer is 400 / 500 and nothing at all is written. -/
+theorem http_write_all_or_nothing (enc : BodyEnc) (db rp precision : String) (lines : List Line) (closed : Bool) :
+    ((serveWrite enc db rp precision lines closed).1 = 204 ∧
+      (serveWrite enc db rp precision lines closed).2 =
+        some (.write db rp (lines.filterMap (lineAsWritten (if precision == "" then "n" else precision))))) ∨
+    (((serveWrite enc db rp precision lines closed).1 = 400 ∨ (serveWrite enc db rp precision lines closed).1 = 500) ∧
+      (serveWrite enc db rp precision lines closed).2 = none) := by
+  cases enc
+  · rw [serveWrite_readable (Or.inl rfl)]; exact serveCore_all_or_nothing ..
+  · rw [serveWrite_readable (Or.inr rfl)]; exact serveCore_all_or_nothing ..
+  · rw [serveWrite_unreadable (Or.inl rfl)]; right; exact ⟨Or.inl rfl, rfl⟩
+  · rw [serveWrite_unreadable (Or.inr rfl)]; right; exact ⟨Or.inl rfl, rfl⟩
+
+/-- When exactly a request is accepted. -/
+theorem http_write_accepted_iff (enc : BodyEnc) (db rp precision : String) (lines : List Line) (closed : Bool) :
+    (serveWrite enc db rp precision lines closed).1 = 204 ↔
+      ((enc = .plain ∨ enc = .gzip) ∧ db ≠ "" ∧ closed = false ∧
+        ∀ l ∈ lines, parseLine (if precision == "" then "n" else precision) l ≠ some none) := by
+  cases enc
+  · rw [serveWrite_readable (Or.inl rfl), serveCore_accepted_iff]; simp
+  · rw [serveWrite_readable (Or.inr rfl), serveCore_accepted_iff]; simp
+  · rw [serveWrite_unreadable (Or.inl rfl)]; simp
+  · rw [serveWrite_unreadable (Or.inr rfl)]; simp
+
 /-! ### Non-vacuity: the hypotheses are met by concrete, non-trivial histories -/
 
 /-- two tasks, one with the exact+wildcard subscription, a stop of the other task between two writes, default-rp substitution -/
@@ -374,5 +405,16 @@ example : IsTruncation 7000000000 1700000000300000000 1699999997000000000 ∧ Is
 /-- `forwarded_point_depends_on_own_chain_only` is not vacuous: node #1 is off the chain of #2 (= {2, 0}). -/
 example : onChain [({} : From), {}, { parent := some 0 }] 3 2 1 = false ∧ onChain [({} : From), {}, { parent := some 0 }] 3 2 0 = true := by
   decide
+
+/-- `serveWrite`: the same large time stamp is refused under precision `h` (it leaves the int64 ns range: the whole body is refused)
+and written under `m`; a gzip body is read like a plain one, a broken one refused; a comment line is skipped; after a drain: 500. -/
+example :
+    let a : RawPoint := ⟨1, "cpu", [], {}⟩
+    let b : RawPoint := ⟨2, "cpu", [], {}⟩
+    (serveWrite .plain "d" "" "h" [.point a 472222, .point b 2562048]).1 = 400 ∧
+    (serveWrite .gzip "d" "" "m" [.point a 28333333, .skip, .point b 2562048]).1 = 204 ∧
+    (lineAsWritten "m" (.point b 2562048)).map (·.pl.time) = some 153722880000000000 ∧
+    (serveWrite .gzipTruncated "d" "" "" [.point a 5]).1 = 400 ∧ (serveWrite .plain "d" "r" "" [.point a 5, .bad]).1 = 400 ∧
+    (serveWrite .plain "" "r" "" [.point a 5]).1 = 400 ∧ (serveWrite .plain "d" "r" "" [.point a 5] true).1 = 500 := by decide
 
 end Kap.Props.C02
